@@ -1,6 +1,6 @@
 (* C05 -- every source text is accepted or rejected cleanly, in bounded time. Only statements. *)
 From Coq Require Import List String Arith Bool.
-From TsrunV Require Import Front.Model Front.Proofs Generated.FactsC05.
+From TsrunV Require Import Front.Model Front.Proofs Front.Height Front.HeightProofs Generated.FactsC05.
 Import ListNotations.
 
 (* A scanner that consumes at least one character per token produces at most
@@ -45,3 +45,28 @@ Print Assumptions c05_parser_stack_is_bounded.
 Theorem c05_parser_limit_is_the_one_proved : parser_limits = ["MAX_NESTING=1024"; "functions=102"; "max_rank=11"]%string.
 Proof. reflexivity. Qed.
 Print Assumptions c05_parser_limit_is_the_one_proved.
+
+(* The height of the tree. Whatever sequence of recursive steps, completed
+   sub-trees and loop-built links produced it: if the parser accepted it (no
+   link pushed the tracked height above the limit, no recursion went deeper
+   than the limit), the tree is at most K * 2 * limit levels tall, K being the
+   number of levels one recursive step can add by itself. Everything that walks
+   the tree afterwards (the compiler, Drop) recurses at most that deep. *)
+Theorem c05_tree_height_is_bounded : forall K limit, 1 <= K -> forall f,
+  accepted limit f = true -> depth f <= limit -> real K f <= K * (2 * limit).
+Proof. exact height_bounded. Qed.
+Print Assumptions c05_tree_height_is_bounded.
+
+(* ... and every loop of the current parser that wraps what it has built so far
+   into a new node accounts for the level it adds (regenerated on every run) *)
+Theorem c05_every_wrapping_loop_is_accounted :
+  parser_wrapping_loops_without_link = [] /\ parser_wrapping_loops = ["count=15"]%string.
+Proof. split; reflexivity. Qed.
+Print Assumptions c05_every_wrapping_loop_is_accounted.
+
+(* non-vacuity: `(a.b.b + c) as T`-like: links, a child with links of its own; accepted at limit 8, refused at limit 2 *)
+Theorem c05_height_witness :
+  let f := Frame [Child (Frame [Link; Link; Child (Frame [Link])]); Link; Child (Frame []); Link] in
+  accepted 8 f = true /\ accepted 2 f = false /\ tracked f = 6 /\ real 3 f = 12 /\ depth f = 3.
+Proof. vm_compute. repeat split. Qed.
+Print Assumptions c05_height_witness.
